@@ -25,6 +25,7 @@ NOT_YET = {}
 WIDE = {"C01", "C02", "C06", "C08", "C09", "C10", "C11", "C12", "C13", "C15", "C18"}
 MULTI = {"C01", "C02", "C06", "C08", "C09", "C11", "C12", "C13", "C15", "C18"}
 LONG = {"C01", "C06", "C08", "C09", "C11"}
+VOUCHER = {"C01", "C02", "C13", "C15", "C18", "C20"}
 ALL = ["C%02d" % i for i in range(1, 21)]
 
 def main():
@@ -45,6 +46,8 @@ def main():
             text += " Second venue (root R19): a second oracle pool enabled for leveraged LP (second accounted pool, second perpetual pool, trading asset uelys) with open positions of both modules in both venues; every pair of a 40-op alphabet over both venues (swaps, routes through both oracle pools, joins, exits, opens, closes, price moves of either asset, third-party close requests over all positions)."
         if pid in MULTI:
             text += " Multi-message transactions: every ordered pair of a same-signer op set as ONE signed transaction, and every op followed by a message that fails at delivery (the whole transaction must roll back), then one more block."
+        if pid in VOUCHER:
+            text += " Voucher venue (root R23): the fixture's fourth asset is an IBC voucher with 18 decimals whose asset-profile base denom differs from its denom; a constant-product pool of it whose price the ops push far from the oracle's, pending spot orders in it, a gas fee paid in it."
         if pid in LONG:
             text += " Long history (root R20): a thousand ordinary blocks since anything touched the open positions' debts (sweep off), the root's own history judged, followed by three fixed linear chains over every op family, one through a genesis export/import."
         checks.append({
